@@ -1243,20 +1243,27 @@ var readOnlyDeniedKeywords = map[string]struct{}{
 // or hint glued to the keyword (`insert/**/into`) does not hide it.
 func leadingKeyword(sql string) string {
 	i, n := 0, len(sql)
+	inVersionComment := false
 	for i < n {
 		ch := sql[i]
 		switch {
 		case ch == ' ' || ch == '\t' || ch == '\n' || ch == '\r' || ch == '\f' || ch == '\v' || ch == '(' || ch == ';':
 			i++
-		case ch == '#' || (ch == '-' && i+2 < n && sql[i+1] == '-' && (sql[i+2] == ' ' || sql[i+2] == '\t' || sql[i+2] == '\n' || sql[i+2] == '\r')):
+		case ch == '#' || (ch == '-' && i+2 < n && sql[i+1] == '-' && sql[i+2] <= ' '):
+			// MySQL: "--" starts a comment when a white space or control character follows
 			end := strings.IndexByte(sql[i:], '\n')
 			if end < 0 {
 				return ""
 			}
 			i += end + 1
+		case inVersionComment && ch == '*' && i+1 < n && sql[i+1] == '/':
+			// end of an empty version comment (`/*!40101 */ insert ...`): the statement follows
+			inVersionComment = false
+			i += 2
 		case ch == '/' && i+1 < n && sql[i+1] == '*':
 			if i+2 < n && sql[i+2] == '!' {
 				// version comment: its content is part of the statement
+				inVersionComment = true
 				i += 3
 				for i < n && sql[i] >= '0' && sql[i] <= '9' {
 					i++
@@ -1290,8 +1297,21 @@ func isSQLNotAllowedByUser(c *SessionExecutor, stmtType int, sql string) bool {
 		return true
 	}
 	// parser.Preview only looks at the text up to the first white space; decide on the real leading keyword
-	_, denied := readOnlyDeniedKeywords[leadingKeyword(sql)]
-	return denied
+	if _, denied := readOnlyDeniedKeywords[leadingKeyword(sql)]; denied {
+		return true
+	}
+	// a packet that was not split into statements (namespace or client without multi-statement
+	// support) is forwarded as a whole: refuse it when any of its statements is denied
+	if strings.IndexByte(sql, ';') >= 0 {
+		if pieces, err := parser.SplitStatementToPieces(sql); err == nil && len(pieces) > 1 {
+			for _, piece := range pieces {
+				if _, denied := readOnlyDeniedKeywords[leadingKeyword(piece)]; denied {
+					return true
+				}
+			}
+		}
+	}
+	return false
 }
 
 // 旧版本，这边有个版本对比的函数性能比较差，qps 大时损耗比较严重遂去掉，Contains 比 HasSuffix 性能差，去掉
